@@ -83,6 +83,20 @@ def clump(k, cone, island, solver, jacobian, midphase=True):
             % (cone, solver, jacobian, flags, body(0.2, 0), body(0.27, 0.005)))
 
 
+def pairs(k, cone, island, solver, jacobian):
+    """two free bodies with k long thin capsules each, 0.1 apart: all k*k bounding spheres overlap, so k*k candidate pairs
+    are pushed on the arena (pushPairArena) by the all-to-all loop (midphase disabled), but nothing touches: the arena
+    need is dominated by the pair buffer."""
+    def body(z, yaw):
+        g = "".join('<geom type="capsule" size=".005 .5" pos="0 %g 0" euler="0 90 %g"/>' % (0.02 * i, yaw) for i in range(k))
+        # a small far-away sphere makes the two body AABBs overlap in z so that the broadphase keeps the body pair
+        g += '<geom type="sphere" size=".02" pos="0.7 0.7 %g"/>' % (0.1 if yaw == 0 else -0.1)
+        return '<body pos="0 0 %g"><freejoint/>%s</body>' % (z, g)
+    flags = '<flag island="%s" midphase="disable"/>' % ("enable" if island else "disable")
+    return ('<mujoco><option cone="%s" solver="%s" jacobian="%s" timestep="0.002" ccd_iterations="1" gravity="0 0 0">%s</option>'
+            '<worldbody>%s%s</worldbody></mujoco>' % (cone, solver, jacobian, flags, body(0.2, 0), body(0.3, 90)))
+
+
 def scenarios(thorough: bool):
     """(name, xml) list.  The option lattice is cone x island x (solver, jacobian): complete in thorough, a 4-element
     covering sub-lattice (every value of every factor occurs) in quick."""
@@ -93,18 +107,22 @@ def scenarios(thorough: bool):
     else:
         lattice = [("pyramidal", True, "Newton", "dense"), ("elliptic", False, "PGS", "sparse"),
                    ("pyramidal", False, "PGS", "dense"), ("elliptic", True, "CG", "sparse")]
-    for cone, island, solver, jac in lattice:
+    for n, (cone, island, solver, jac) in enumerate(lattice):
         tag = "%s,%s,%s,%s" % (cone, "island" if island else "noisland", solver, jac)
         out.append(("mixed[%s]" % tag, mixed(cone, island, solver, jac)))
         out.append(("chain%d[%s]" % (8 if thorough else 4, tag), chain(8 if thorough else 4, cone, island, solver, jac)))
-        out.append(("islands%d[%s]" % (4 if thorough else 2, tag), islands(4 if thorough else 2, cone, island, solver, jac)))
-        k = 5 if thorough else 3
-        out.append(("clump%d[%s]" % (k, tag), clump(k, cone, island, solver, jac)))
-        if solver == "Newton" and jac == "dense":
-            out.append(("clump%d-nomidphase[%s]" % (k, tag), clump(k, cone, island, solver, jac, midphase=False)))
+        if thorough or n < 2:
+            k = 5 if thorough else 3
+            out.append(("clump%d[%s]" % (k, tag), clump(k, cone, island, solver, jac)))
         if thorough:
+            out.append(("islands4[%s]" % tag, islands(4, cone, island, solver, jac)))
             out.append(("spheres6[%s]" % tag, spheres(6, cone, island, solver, jac)))
+            if solver == "Newton" and jac == "dense":
+                out.append(("clump5-nomidphase[%s]" % tag, clump(5, cone, island, solver, jac, midphase=False)))
+    out.append(("pairs8[pyramidal,island,Newton,dense]", pairs(8, "pyramidal", True, "Newton", "dense")))
+    out.append(("islands2[elliptic,island,CG,sparse]", islands(2, "elliptic", True, "CG", "sparse")))
     if thorough:
+        out.append(("pairs16[elliptic,noisland,PGS,sparse]", pairs(16, "elliptic", False, "PGS", "sparse")))
         out.append(("spheres20[pyramidal,island,Newton,sparse]", spheres(20, "pyramidal", True, "Newton", "sparse")))
         out.append(("spheres20[elliptic,noisland,PGS,dense]", spheres(20, "elliptic", False, "PGS", "dense")))
     return out
